@@ -68,8 +68,8 @@ Inductive keff : st -> st -> Prop :=
 | ke_upd s s1 a x y : keff s s1 -> aget (actors s1) a = Some y -> same_view x y -> keff s (upd_actor s1 a x)
 | ke_new_actor s s1 a nt parent vis : keff s s1 -> aget (actors s1) a = None -> nshape a nt ->
     keff s (new_actor s1 a nt parent vis)
-| ke_submit_call s s1 ci : keff s s1 -> callk ci -> ci_sq ci = None -> keff s (submit s1 QMain ci)
-| ke_submit_plain s s1 q ci : keff s s1 -> ci_call ci = false -> keff s (submit s1 q ci)
+| ke_submit_call s s1 ci : keff s s1 -> callk ci -> iwf s1 ci -> ci_sq ci = None -> keff s (submit s1 QMain ci)
+| ke_submit_plain s s1 q ci : keff s s1 -> ci_call ci = false -> iwf s1 ci -> keff s (submit s1 q ci)
 | ke_push_internal s s1 k : keff s s1 -> internalk k -> keff s (push_main s1 (CI 0 0 k [] None)).
 
 Lemma keff_trans s1 s2 s3 : keff s1 s2 -> keff s2 s3 -> keff s1 s3.
@@ -195,11 +195,14 @@ Proof. intros H. unfold bind. destruct (aget (env s) h); intros E; inversion E; 
 Lemma bad_keff s0 s c l s' : keff s0 s -> bad s c = (l, s') -> keff s0 s'.
 Proof. intros H. unfold bad. intros E; inversion E; subst. apply ke_emit; auto. Qed.
 
-Lemma tok_script_keff script : forall s0 s, keff s0 s -> keff s0 (tok_script s script).
+Lemma tok_script_keff script : forall s0 s, QWF s -> keff s0 s -> keff s0 (tok_script s script).
 Proof.
-  unfold tok_script. induction script as [|c r IH]; simpl; intros s0 s H; auto.
-  destruct (inst_env c KPlain s) as [ci s1] eqn:I. apply IH.
-  destruct (inst_env_keff _ _ _ _ _ _ H I) as [A B]. apply ke_submit_plain; auto. unfold ci_call. rewrite B. reflexivity.
+  unfold tok_script. induction script as [|c r IH]; simpl; intros s0 s HW H; auto.
+  destruct (inst_env c KPlain s) as [ci s1] eqn:I.
+  destruct (inst_env_wf _ _ _ _ HW I) as (H1 & _ & C1). destruct (inst_env_keff _ _ _ _ _ _ H I) as [A B].
+  apply IH; [apply Q_submit; auto|]. apply ke_submit_plain; auto.
+  - unfold ci_call. rewrite B. reflexivity.
+  - apply cwf_iff in C1. apply C1.
 Qed.
 
 Lemma mk_notifier_keff s0 s a n r s' : keff s0 s -> mk_notifier s a n = (r, s') -> keff s0 s'.
@@ -260,9 +263,7 @@ Ltac keff_tac :=
     | apply ke_timer_add
     | apply ke_set_nuid | apply ke_set_env | apply ke_set_fwds | apply ke_set_shut | apply ke_set_frames
     | apply ke_set_tvars | apply ke_set_tnext | apply ke_set_timers | apply ke_push_frame
-    | apply ke_ref_clone | apply tok_script_keff | apply target_ev_keff | apply ke_log_rec
-    | (apply ke_submit_plain; [ | kind_tac ])
-    | (apply ke_submit_call; [ | callk_tac | first [ eapply inst_call_sq; eassumption | reflexivity ] ])
+    | apply ke_ref_clone | apply target_ev_keff | apply ke_log_rec
     | (eapply ke_upd; [ | eassumption | first [ apply same_view_rc | apply same_view_strong_inc ] ])
     | eapply bind_keff; [ | eassumption ]
     | eapply bad_keff; [ | eassumption ]
@@ -338,10 +339,33 @@ Proof.
   unfold new_actor, log_rec. destruct (_ && _); destruct vis; unfold upd_actor; simpl; rewrite aget_aset_neq; auto.
 Qed.
 
+Lemma plain_submit_keff c s q ci s1 : QWF s -> inst c KPlain s = (ci, s1) -> keff s (submit s1 q ci).
+Proof.
+  intros HW I. destruct (inst_plain_wf _ _ _ _ HW I) as (H1 & _ & C1).
+  apply ke_submit_plain; [eapply inst_keff1; [apply ke_refl | eauto] | kind_tac | apply cwf_iff in C1; apply C1].
+Qed.
+
+Lemma call_submit_keff c mk s a ci s2 :
+  QWF s -> inst_call c mk (ref_clone s a) = (ci, s2) ->
+  (forall b, match mk b with KMeth _ _ _ | KPrep _ _ _ => True | _ => False end) -> keff s (submit s2 QMain ci).
+Proof.
+  intros HW I MK. destruct (inst_call_wf _ _ _ _ _ (Q_ref_clone _ a HW) I) as (H2 & _ & C2 & K2 & Q2).
+  apply ke_submit_call; [eapply inst_call_keff1; [apply ke_ref_clone, ke_refl | eauto] | | apply cwf_iff in C2; apply C2 | exact Q2].
+  unfold callk. rewrite K2. apply MK.
+Qed.
+
 Lemma do_act_kout a s l s' : QWF s -> QTags s -> do_act a s = (l, s') -> keff s s' /\ Forall genm l.
 Proof.
   intros HW HT. unfold do_act. destruct a.
   all: try solve [repeat dest_match; try solve [kout_tac]].
+  - (* ADefer *) destruct (has_core s); [|kout_tac]. destruct (inst c KPlain s) as [ci s1] eqn:I. intros E; inversion E; subst.
+    split; [eapply plain_submit_keff; eauto | constructor].
+  - destruct (inst c KPlain s) as [ci s1] eqn:I. intros E; inversion E; subst.
+    split; [eapply plain_submit_keff; eauto | constructor].
+  - destruct (has_core s); [|kout_tac]. destruct (inst c KPlain s) as [ci s1] eqn:I. intros E; inversion E; subst.
+    split; [eapply plain_submit_keff; eauto | constructor].
+  - destruct (has_core s); [|kout_tac]. destruct (inst c KPlain s) as [ci s1] eqn:I. intros E; inversion E; subst.
+    split; [eapply plain_submit_keff; eauto | constructor].
   - (* ATimerMac *)
     destruct (has_core s); [|kout_tac]. destruct k; [kout_tac| |].
     all: destruct (inst c KPlain s) as [ci s1] eqn:I; destruct (var_timer s1 _ v) as [[i k' e o ci0]|]; [|kout_tac].
@@ -358,6 +382,14 @@ Proof.
     + eapply mk_notifier_keff; eauto. apply ke_refl.
     + eapply lsame_none; eauto. eapply lsame_mk_notifier; eauto.
     + eapply mk_notifier_shape; eauto.
+  - (* ACall *)
+    destruct (lookup s h) as [v|]; [|kout_tac]. destruct (handle_actor v) as [a|]; [|kout_tac].
+    destruct (inst_call c _ (ref_clone s a)) as [ci s2] eqn:I. intros E; inversion E; subst.
+    split; [eapply call_submit_keff; eauto; intros b; exact Logic.I | constructor].
+  - (* ACallPrep *)
+    destruct (lookup s h) as [v|]; [|kout_tac]. destruct (handle_actor v) as [a|]; [|kout_tac].
+    destruct (inst_call c _ (ref_clone s a)) as [ci s2] eqn:I. intros E; inversion E; subst.
+    split; [eapply call_submit_keff; eauto; intros b; exact Logic.I | constructor].
   - (* AKillAsync *)
     repeat dest_match; try solve [kout_tac]. intros E; inversion E; subst. split; [|constructor].
     apply ke_push_internal; [|exact I]. keff_tac.
@@ -404,18 +436,21 @@ Proof.
     destruct (aget (fwds s) f) as [[rc [body|ht c] tg]|]; try kout_tac.
     destruct tg as [a|]; [|kout_tac].
     destruct (inst_nocaps c _ (ref_clone s a)) as [ci s2] eqn:I. intros E; inversion E; subst. split; [|constructor].
-    apply ke_submit_call; [apply target_ev_keff; eapply inst_nocaps_keff; [apply ke_ref_clone, ke_refl | eauto] | callk_tac |].
+    destruct (inst_nocaps_wf _ _ _ _ _ (Q_ref_clone _ a HW) I) as (H2 & _ & C2 & K2).
+    apply ke_submit_call; [apply target_ev_keff; eapply inst_nocaps_keff; [apply ke_ref_clone, ke_refl | eauto] | callk_tac | apply cwf_iff in C2; apply C2 |].
     unfold inst_nocaps in I. inversion I; reflexivity.
 Qed.
 
 Lemma same_view_strong_dec x v z : count_dec (a_strong x) = Some (v, z) -> same_view (with_strong x v) x.
 Proof. intros D. split; [|split; [|split]]; auto. simpl. intros R. eapply sta_dec; eauto. Qed.
 
-Lemma drop_val_kout v s l s' : vwf s v -> drop_val v s = (l, s') -> keff s s' /\ Forall genm l.
+Lemma drop_val_kout v s l s' : QWF s -> vwf s v -> drop_val v s = (l, s') -> keff s s' /\ Forall genm l.
 Proof.
-  intros V. unfold drop_val. destruct v; repeat dest_match; try solve [kout_tac].
-  intros E; inversion E; subst. split; [apply ke_refl|]. constructor; [|constructor]. simpl. split; [|exact I].
-  inversion V; subst. assumption.
+  intros HW V. unfold drop_val. destruct v; repeat dest_match; try solve [kout_tac].
+  - intros E; inversion E; subst. split; [apply ke_refl|]. constructor; [|constructor]. simpl. split; [|exact I].
+    inversion V; subst. assumption.
+  - intros E; inversion E; subst. split; [|constructor].
+    apply tok_script_keff; [apply Q_emit; [reflexivity | exact HW] | apply ke_emit; [apply ke_refl | reflexivity]].
 Qed.
 
 Lemma drop_own_kout a b s l s' : drop_own a b s = (l, s') -> keff s s' /\ Forall genm l.
